@@ -329,6 +329,10 @@ def _centre(img):
     return float(img[tuple(s // 2 for s in img.shape)])
 
 
+def _corner(img):
+    return float(img[0, 0, 0])
+
+
 def cases(tier, seed):
     return []  # states are produced by explore() in extra()
 
@@ -474,6 +478,13 @@ def run_case(case):
         cnt = G.count()
         if {k: len(u) for k, u in g1} != dict(cnt):
             bad("group", "count", f"count() = {dict(cnt)} but groups are {g1}")
+        # group.apply with as many functions as a group may have members (2): one row per molecule, one column per function
+        ap = LF.groupby("g").apply([_centre, _corner], schema=["centre", "corner"])
+        for k, u in g1:
+            df = ap[k]
+            wc = [code(tomo_of(x, ntomo), *POS[x]) for x in u]
+            if df.columns != ["centre", "corner"] or df.shape[0] != len(u) or df["centre"].to_list() != wc:
+                bad("group.apply", "row-mismatch", f"group {k} (uids {u}): apply([centre, corner]) gives columns {df.columns}, centre column {df['centre'].to_list() if 'centre' in df.columns else None}, expected one row per molecule with centre codes {wc}")
         avg = G.average()
         for k, u in g1:
             w = float(np.mean([code(tomo_of(x, ntomo), *POS[x]) for x in u]))
